@@ -1,11 +1,11 @@
 # C12 Burst-buffer driver is transparent to the application (request table part).
-from engine import Job
+from engine import Job, REPO
 LEVEL = 'other'
 TRUSTED = ['POSIX log files; the default driver underneath']
 ASSUMPTIONS = ['ncbbio sources are compiled with -DENABLE_BURST_BUFFER although the baseline build does not enable the driver',
                'equality of the destination file with the default-driver run, log-file removal and shared logs are whole-program / file-system facts: not decided']
 EXPLANATION = 'nonblocking request table of the burst-buffer driver: cancel invalidates exactly the log entries of the cancelled request'
-BB = ['-DENABLE_BURST_BUFFER', '-I/repo/src/drivers/ncbbio']
+BB = ['-DENABLE_BURST_BUFFER', '-I%s/src/drivers/ncbbio' % REPO]
 
 def jobs(tier, ws):
     return [Job('C12/ncbbio_cancel_put_req', 'C12', ['src/drivers/ncbbio/ncbbio_nonblocking.c'], 'C12_bb.c', enforce='ncbbio_cancel_put_req',
